@@ -17,6 +17,8 @@ type PropSpec struct {
 	// Extra analyses (non-SMT obligations) by name: "frame", "depth", "walk".
 	Analyses []string
 	Technique string
+	LevelText string
+	LevelNote string
 }
 
 type Sel struct {
@@ -49,6 +51,46 @@ func init() {
 			{Pattern: "buffer.NewWriter", Levels: "SF"},
 		},
 		Technique: "deductive verification: function contracts on parse.Input / buffer.Lexer, VCs from go/ssa discharged by z3/cvc5",
+	})
+	lexers := []Sel{
+		{Pattern: "parse.Input.*", Levels: "S"},
+		{Pattern: "css.Lexer.*", Levels: "S"}, {Pattern: "css.NewLexer", Levels: "S"},
+		{Pattern: "html.Lexer.*", Levels: "S"}, {Pattern: "html.NewLexer", Levels: "S"}, {Pattern: "html.NewTemplateLexer", Levels: "S"},
+		{Pattern: "xml.Lexer.*", Levels: "S"}, {Pattern: "xml.NewLexer", Levels: "S"},
+		{Pattern: "json.Parser.*", Levels: "S"}, {Pattern: "json.NewParser", Levels: "S"},
+		{Pattern: "js.Lexer.*", Levels: "S"}, {Pattern: "js.NewLexer", Levels: "S"},
+	}
+	registerProp(&PropSpec{
+		ID: "C01", Title: "No input crashes, hangs or over-reads any lexer, parser or AST method",
+		Sel: lexers,
+		NotDecided: []string{
+			"nil-safety of the AST printing methods (JS/String/JSON) beyond the zero-annotation sweep",
+			"stack depth of tree-recursive printers (argued from the parser's nesting limits, not proved)",
+		},
+		Technique: "deductive verification: safety contracts (cursor invariant, peek-before-move precondition, progress measure, sticky end) on every lexer/parser function; VCs from go/ssa discharged by z3/cvc5",
+	})
+	registerProp(&PropSpec{
+		ID: "C02", Title: "Tokens are faithful, ordered, non-empty slices of the input",
+		Sel: []Sel{
+			{Pattern: "css.Lexer.Next", Levels: "T"}, {Pattern: "js.Lexer.Next", Levels: "T"},
+			{Pattern: "html.Lexer.*", Levels: "T"}, {Pattern: "xml.Lexer.*", Levels: "T"},
+			{Pattern: "parse.Input.Shift", Levels: "S"}, {Pattern: "parse.Input.Lexeme", Levels: "S"}, {Pattern: "parse.Input.Bytes", Levels: "S"},
+			{Pattern: "parse.ToLower", Levels: "S"}, {Pattern: "parse.Copy", Levels: "SF"},
+		},
+		NotDecided: []string{"lexing a token's text on its own yields the same token (two-run relational clause with look-ahead)"},
+		Technique: "deductive verification: token-conservation contracts (returned slice = bytes moved over, cap==len, buffer frame) on the lexers' Next and shift functions; VCs discharged by z3/cvc5",
+	})
+	registerProp(&PropSpec{
+		ID: "C10", Title: "JSON parser accepts every valid document and reproduces it",
+		Sel: []Sel{{Pattern: "json.Parser.*", Levels: "STF"}, {Pattern: "json.NewParser", Levels: "S"}},
+		NotDecided: []string{"every document accepted by encoding/json is accepted (needs induction over the JSON grammar against the iterative state machine)"},
+		Technique: "deductive verification: state-stack typing invariant, per-unit push/pop postconditions, skipped-bytes conservation clauses on json.Parser.Next; VCs discharged by z3/cvc5",
+	})
+	registerProp(&PropSpec{
+		ID: "C11", Title: "XML lexer tokenises well-formed XML like a conforming XML reader",
+		Sel: []Sel{{Pattern: "xml.Lexer.*", Levels: "STF"}, {Pattern: "xml.NewLexer", Levels: "S"}},
+		NotDecided: []string{"agreement with encoding/xml on well-formed documents (external oracle)", "DOCTYPE quote/bracket tracking beyond termination at '>' or NUL"},
+		Technique: "deductive verification: inTag state-machine postconditions, NUL-is-error clause, first-terminator clauses for CDATA/comment on the real lexer; VCs discharged by z3/cvc5",
 	})
 }
 
